@@ -111,6 +111,8 @@ _PUSH = _op(
     jobs=st.sampled_from([1, 1, 4]),
     trees_from=st.sampled_from(["cache", "cache", "remote"]),
     index_abort=_IDX_ABORT,
+    # an injected upload failure leaves the first half of the bytes, unprotected, under the final name
+    partial=st.sampled_from([False, False, True]),
 )
 _FETCH = _op("fetch", request=st.lists(st.integers(0, 7), min_size=1, max_size=2), jobs=st.sampled_from([1, 4]),
              index_abort=_IDX_ABORT)
@@ -241,8 +243,25 @@ class IndexMachine(TraceMachine):
                        "index_transaction_aborts": self.n_idx_aborts})
 
     # ---- observation helpers -------------------------------------------------------------------
-    def listing(self):
+    def names(self):
+        """Every object NAME in the addressed remote (os.walk)."""
         return ref.store_ids(self.remote_root)
+
+    def intact(self):
+        """Ids whose file in the addressed remote holds exactly the reference bytes."""
+        out = set()
+        for oid, path in ref.walk_store(self.remote_root)[0].items():
+            if self.w.bytes.get(oid) == ref.read(path):
+                out.add(oid)
+        return out
+
+    def listing(self):
+        """What counts as 'in the store' for the addressed remote. A LocalHashFileDB only counts intact objects
+        (a half-written, unprotected leftover under an object's name is discarded by its existence queries);
+        the generic class trusts names by design, so a leftover there IS the object as far as status without an
+        index can tell - for that class only the index gains of the failing push itself are judged by
+        content (see do_push)."""
+        return self.intact() if self.kind == "local" else self.names()
 
     def listed_by(self, dirs):
         out = set()
@@ -352,7 +371,7 @@ class IndexMachine(TraceMachine):
                 self.labels.add("steps-on->=2-remotes")
         getattr(self, "do_" + op["op"])(**args)
 
-    def do_push(self, request, form, fail, abort_at, jobs, trees_from, index_abort=None):
+    def do_push(self, request, form, fail, abort_at, jobs, trees_from, index_abort=None, partial=False):
         from dvc_objects.errors import ObjectDBError
 
         from dvc_data.hashfile.transfer import transfer
@@ -365,6 +384,8 @@ class IndexMachine(TraceMachine):
             jobs = 1  # which upload is the k-th must not depend on thread scheduling
         req_exp = expand(self.w, ids)
         before = self.listing()
+        names_before = self.names()
+        idx_before = set(self.index)
         stale = self._stale_before()
         moving = sorted(req_exp - before) or self.w.all_ids
         plan = {moving[i % len(moving)] for i in fail}
@@ -379,7 +400,8 @@ class IndexMachine(TraceMachine):
             kw["cache_odb"] = self.remote  # what index.push passes
         self._status_evaluated()
         res, aborted = None, False
-        inj = Injector([self.remote_root], fail=plan, abort_at=abort_at if not fail else None)
+        inj = Injector([self.remote_root], fail=plan, abort_at=abort_at if not fail else None,
+                       partial=bool(partial))
         hook = TxHook(self.index, index_abort)
         with inj, hook:
             try:
@@ -400,6 +422,19 @@ class IndexMachine(TraceMachine):
             self._check_reported(_vals(cs.ok) | _vals(cs.deleted), seen["listing"], "push")
         self._check_cleared(stale, qdirs, "push")
         self._check_validated(qdirs, "push")
+        # whatever this push added to the index must have ARRIVED: ids the index gained that were not even a
+        # name in the remote before the push (nor listed by a directory that was) must now be there intact -
+        # for either store class (a half-written leftover of a failed upload is not a delivery)
+        gained = set(self.index) - idx_before
+        unarrived = sorted(gained - names_before - self.listed_by(names_before) - self.intact())
+        if unarrived:
+            self.violate("index-vouches-for-undelivered:push",
+                         f"the push added {unarrived} to the index: not in the remote before and not intact "
+                         f"there now (failed uploads: {sorted(k for _, k in inj.faulted)}, partial={bool(partial)})")
+        if inj.faulted and partial:
+            self.labels.add("push-failed-partial-leftover")
+            if any(k.endswith(".dir") for _, k in inj.faulted):
+                self.labels.add("partial-leftover-of-dir-object")
         self._after_index_abort(hook, index_abort, "push")
         failed = bool(inj.faulted) or aborted or bool(res is not None and res.failed)
         if res is not None and res.failed and not inj.faulted:
@@ -514,7 +549,7 @@ class IndexMachine(TraceMachine):
     def do_delete_remote(self, picks, what):
         if self.w is None:
             return
-        have = sorted(self.listing())
+        have = sorted(self.names())
         if what == "tree":
             # a whole directory disappears (its object and every file it lists), preferably one the index
             # knows something about
